@@ -6,7 +6,7 @@ from ..terms import NF, sym, term_str, subterms
 from ..ratfun import RF
 from ..values import Struct, Arr, Opaque, VecV, SeqMap, Stream, SliceRef
 from ..facts import adt, param
-from .rounding import count_rounded_ops, _is_pow2
+from .rounding import count_rounded_ops, _is_pow2, spurious_overflow
 
 HD = 'poly::HasDerivative'
 LEVEL = 'proof'
@@ -68,6 +68,10 @@ def check(cx):
                 rep.ob('coef', '%s:lane%d' % (inst, i), ok, 'lane %d = %s' % (i, nf.show(got)), fn=inst, file=file,
                        line=line, msg='derivative() coefficient %d is %s, expected %s with one rounding at most' %
                        (i, term_str(l)[:200], nf.show(want)))
+                so = spurious_overflow(l, nf)
+                rep.ob('range', '%s:lane%d' % (inst, i), not so, 'no intermediate exceeds the coefficient in magnitude', fn=inst, file=file,
+                       line=line, msg='derivative() coefficient %d: intermediate %s is %s times the result, so it overflows for finite '
+                       'coefficients whose derivative coefficient is representable' % (i, term_str(so[0][0])[:120] if so else '', so[0][1] if so else ''))
             x = sym('x')
             p = poly_value(nf, cs, nf(x))
             dp = d_dx(nf, p, x)
@@ -78,6 +82,7 @@ def check(cx):
         guarded(rep, 'coef', inst, f, go)
     rep.floor('coef', 1 + sum(range(1, 9)))
     rep.floor('value', 9)
+    rep.floor('range', 1 + sum(range(1, 9)))
 
     T = param('T')
     f = impl_method(cx.facts, HD, adt('piecewise::Segment', T), 'derivative')
